@@ -110,6 +110,7 @@ SWriteStr(b)     == SOp("WriteString", b, 0, <<>>, <<>>)      \* io.WriteString(
 \* they stand for Write of that byte / of the rune's encoding
 SWriteByte(c)    == SOp("WriteByte", <<>>, c, <<>>, <<>>)
 SWriteVerb       == SOp("WriteVerb", <<>>, 0, <<>>, <<>>)       \* writes the verb the method was called with
+SWriteFlags      == SOp("WriteFlags", <<>>, 0, <<>>, <<>>)      \* writes the flags the method observes, in the order + - # space 0
 SWriteRune(r)    == SOp("WriteRune", <<>>, r, <<>>, <<>>)
 SPrint(ts)       == SOp("Print", <<>>, 0, <<>>, ts)
 SPrintf(f, ts)   == SOp("Printf", <<>>, 0, f, ts)
@@ -381,6 +382,10 @@ RunOp(ps, op, verb, a) ==
        [] op.o \in {"Write", "WriteString"} -> unsafely(LAMBDA s : W(s, op.b))     \* pp.Write / pp.WriteString
        [] op.o = "WriteByte"    -> unsafely(LAMBDA s : W(s, <<op.n>>))
        [] op.o = "WriteVerb"    -> unsafely(LAMBDA s : W(s, EncodeRune(verb)))        \* a method that looks at the verb it is given
+       \* ... and at the flags (pp.Flag: '+' and '#' also report the plusV / sharpV they were turned into for %v)
+       [] op.o = "WriteFlags"   -> unsafely(LAMBDA s : W(s, (IF ps.fl.plus \/ ps.fl.plusV THEN <<43>> ELSE <<>>) \o (IF ps.fl.minus THEN <<45>> ELSE <<>>)
+                                                           \o (IF ps.fl.sharp \/ ps.fl.sharpV THEN <<35>> ELSE <<>>) \o (IF ps.fl.space THEN <<32>> ELSE <<>>)
+                                                           \o (IF ps.fl.zero THEN <<48>> ELSE <<>>)))
        [] op.o = "WriteRune"    -> unsafely(LAMBDA s : W(s, EncodeRune(op.n)))
        \* the hook's p.UnsafeString(err.Error()): Error() may panic
        [] op.o = "UnsafeErrText" -> LET e == op.ts[1] IN
